@@ -24,14 +24,15 @@ type Step struct {
 }
 
 type Surgery struct {
-	Kind string `json:"kind"`        // tindex-renamed | tindex-torn | tindex-orphan | cindex-drop | cindex-stale | cindex-torn | pipes-torn | pipes-drop | bak-drop
+	Kind string `json:"kind"`        // tindex-torn | tindex-orphan | cindex-drop | cindex-stale | cindex-torn
 	K    int    `json:"k,omitempty"` // torn: keep K per mille of the file (always a proper prefix)
 	Part int    `json:"part,omitempty"`
 }
 
 type Session struct {
 	Steps   []Step    `json:"steps"`
-	End     string    `json:"end"` // stop | kill
+	End     string    `json:"end"`             // stop | kill | crash-stop (the process dies inside the first saver of the shutdown sequence)
+	EndK    int       `json:"end_k,omitempty"` // crash-stop: the file size limit is EndK per mille of pipes.dat (what savePipes is about to write)
 	Surgery []Surgery `json:"surgery,omitempty"`
 }
 
@@ -92,32 +93,11 @@ func tornPrefix(data []byte, perMille int) []byte {
 	return data[:n]
 }
 
-// fixedSavers: the savers write <file>.tmp and rename it over <file> (proposed_fixes/C07-*): their crash-shaped
-// states are a torn .tmp next to an intact file. Set VERIF_C07_FIXED=1 (and code_fix in model/Persist.v) once applied.
-var fixedSavers = os.Getenv("VERIF_C07_FIXED") != ""
-
-// applySurgery makes the stopped directory look like a crash inside one of the metadata savers
-func applySurgery(dir string, s Surgery, saved map[string][]byte) error {
-	if fixedSavers {
-		switch s.Kind {
-		case "tindex-renamed", "pipes-drop":
-			return nil
-		case "tindex-torn", "pipes-torn":
-			fn := filepath.Join(dir, "tindex", "tindex.dat")
-			if s.Kind == "pipes-torn" {
-				fn = filepath.Join(dir, "pipes", "pipes.dat")
-			}
-			data, err := ioutil.ReadFile(fn)
-			if err != nil {
-				return nil
-			}
-			return ioutil.WriteFile(fn+".tmp", tornPrefix(data, s.K), 0640)
-		}
-	}
+// applySurgery makes the stopped directory look like a crash at some point of the metadata savers. The crash inside the
+// tag-index save is a real one (a start of the server that dies in the saver's write); the others are file edits.
+func applySurgery(dir string, s Surgery, saved map[string][]byte, tr *trace) error {
 	tdat := filepath.Join(dir, "tindex", "tindex.dat")
-	tbak := filepath.Join(dir, "tindex", "tindex.bak")
 	cdat := filepath.Join(dir, "cindex", "cindex.dat")
-	pdat := filepath.Join(dir, "pipes", "pipes.dat")
 	tear := func(fn string) error {
 		data, err := ioutil.ReadFile(fn)
 		if os.IsNotExist(err) {
@@ -129,12 +109,11 @@ func applySurgery(dir string, s Surgery, saved map[string][]byte) error {
 		return ioutil.WriteFile(fn, tornPrefix(data, s.K), 0640)
 	}
 	switch s.Kind {
-	case "tindex-renamed": // crash between Rename(dat -> bak) and WriteFile(dat)
-		if _, err := os.Stat(tdat); os.IsNotExist(err) {
-			return nil
-		}
-		return os.Rename(tdat, tbak)
-	case "tindex-torn": // crash inside WriteFile(dat): the previous content went to .bak first
+	case "tindex-torn":
+		// a crash inside the write of the tag-index save that ends every Init: the server is started with a file size
+		// limit of K per mille of tindex.dat (the save writes the same index again, so the limit is always reached) and
+		// dies inside the saver's write, k bytes written. Which file is torn is the saver's business: tindex.dat itself
+		// (a saver that writes in place) or a temporary file (a saver that writes aside and renames).
 		data, err := ioutil.ReadFile(tdat)
 		if os.IsNotExist(err) {
 			return nil
@@ -142,10 +121,12 @@ func applySurgery(dir string, s Surgery, saved map[string][]byte) error {
 		if err != nil {
 			return err
 		}
-		if err := ioutil.WriteFile(tbak, data, 0640); err != nil {
+		how, err := crashStart(dir, int64(len(tornPrefix(data, s.K))))
+		if err != nil {
 			return err
 		}
-		return ioutil.WriteFile(tdat, tornPrefix(data, s.K), 0640)
+		tr.inject = append(tr.inject, "start:"+how)
+		return nil
 	case "tindex-orphan": // crash between TIndex.Delete (index saved without the partition) and the removal of its directory
 		data, err := ioutil.ReadFile(tdat)
 		if os.IsNotExist(err) {
@@ -193,14 +174,6 @@ func applySurgery(dir string, s Surgery, saved map[string][]byte) error {
 			return err
 		}
 		return ioutil.WriteFile(cdat, old, 0640)
-	case "pipes-torn":
-		return tear(pdat)
-	case "pipes-drop":
-		err := os.Remove(pdat)
-		if os.IsNotExist(err) {
-			return nil
-		}
-		return err
 	}
 	return fmt.Errorf("unknown surgery %q", s.Kind)
 }
@@ -209,6 +182,7 @@ type trace struct {
 	pre     []Obs    // one per session: what the server showed just before the session ended
 	obs     []Obs    // one per start
 	errs    []string // harness-level notes
+	inject  []string // how every injected crash ended ("start:died:file size limit exceeded", ...)
 	cdatOld bool
 }
 
@@ -275,13 +249,28 @@ func runScenario(sc *Scenario) (*trace, error) {
 		} else {
 			delete(saved, "cindex")
 		}
-		if ss.End == "kill" {
+		switch ss.End {
+		case "kill":
 			c.kill()
-		} else if err := c.stop(); err != nil {
-			return nil, err
+		case "crash-stop":
+			// pipes.dat holds the list the shutdown is about to write again (the definitions are saved when they change);
+			// a directory that never had a pipe gets "[]"
+			size := 2
+			if data, err := ioutil.ReadFile(filepath.Join(dir, "pipes", "pipes.dat")); err == nil && len(data) > 0 {
+				size = len(data)
+			}
+			how, err := c.crashStop(int64(len(tornPrefix(make([]byte, size), ss.EndK))))
+			if err != nil {
+				return nil, err
+			}
+			tr.inject = append(tr.inject, "stop:"+how)
+		default:
+			if err := c.stop(); err != nil {
+				return nil, err
+			}
 		}
 		for _, sg := range ss.Surgery {
-			if err := applySurgery(dir, sg, saved); err != nil {
+			if err := applySurgery(dir, sg, saved, tr); err != nil {
 				return nil, fmt.Errorf("surgery %s: %v", sg.Kind, err)
 			}
 		}
